@@ -182,9 +182,17 @@ def run_sampler(iface, target, init, draws):
     from cuqiverif import script_rng
     from cuqiverif.core import MachineryError
     cls = _sampler_classes()[iface]
-    out = {"stage": None, "error": None, "gammas": [], "chain": []}
+    out = {"stage": None, "error": None, "gammas": [], "chain": [], "returned": []}
+
+    def mk(v):
+        def f(shape):
+            out["returned"].append(float(v))
+            return np.full(shape, float(v))
+        return f
+    # draws beyond the script (a sampler drawing more than once per step) get fresh distinct values
+    filler = {"gamma": lambda shape: mk(100.0 + len(out["returned"]))(shape)}
     try:
-        with script_rng.scripted({"gamma": [float(v) for v in draws]}) as st:
+        with script_rng.scripted({"gamma": [mk(v) for v in draws]}, default=filler) as st:
             try:
                 if iface.startswith("exp"):
                     s = cls(target, initial_point=np.array([float(init)]))
@@ -200,8 +208,8 @@ def run_sampler(iface, target, init, draws):
                 else:
                     x = np.array([float(init)])
                     for _ in draws:
-                        x = s.step(x)
-                        out["chain"].append(float(np.asarray(x).ravel()[0]))
+                        x = np.atleast_1d(np.asarray(s.step(x), dtype=float))
+                        out["chain"].append(float(x.ravel()[0]))
             except script_rng.ScriptError as e:
                 raise MachineryError("scripted generator cannot follow the sampler: %s" % e)
             except Exception as e:
@@ -229,6 +237,17 @@ def _jitter(c):
 def _rate_tol(c, rate):
     r = np.array(c["mu0"], dtype=float) - np.array(c["b"], dtype=float)
     return 1e-9 * max(1.0, abs(rate)) + (1e-7 * (1.0 + float(r @ r)) if _jitter(c) else 0.0)
+
+
+def _is_subsequence(chain, returned):
+    pos = 0
+    for v in chain:
+        while pos < len(returned) and returned[pos] != v:
+            pos += 1
+        if pos == len(returned):
+            return False
+        pos += 1
+    return True
 
 
 def check_accepted(ctx, c, iface, real, target, res, draws):
@@ -259,10 +278,12 @@ def check_accepted(ctx, c, iface, real, target, res, draws):
                          "rate of the Gamma drawn from (step %d, current point %s) is not |L(Ax-b)|^2/2 + beta at unit "
                          "hyper-parameter" % (i + 1, ([c["init"]] + draws)[i]), expected=rate, observed=r)
             ok = False
-    if res["chain"] != draws:
-        ctx.mismatch("chain_value/" + sig, c, "the chain is not the sequence of values returned by the Gamma generator",
+    if not _is_subsequence(res["chain"], res["returned"]) or len(res["chain"]) != len(draws):
+        ctx.mismatch("chain_value/" + sig, c, "the chain is not made of the values returned by the Gamma generator",
                      expected=draws, observed=res["chain"])
         ok = False
+    elif res["chain"] != draws:
+        ctx.observe("conjugate_draws_per_step_not_one", sig)
     # the real target's own density along d
     a_t, b_t, vals = target_coefficients(target)
     a, r = res["gammas"][0][0], res["gammas"][0][1]
@@ -379,8 +400,8 @@ def replay_lmrf(ctx, c):
         if res["stage"] is not None:
             ctx.mismatch("rejects_supported/" + sig, c, "the documented (LMRF, Gamma) pair is refused (%s): %s" % (res["stage"], res["error"]))
             continue
-        if res["chain"] != [float(v) for v in draws]:
-            ctx.mismatch("chain_value/" + sig, c, "the chain is not the sequence of values returned by the Gamma generator",
+        if not _is_subsequence(res["chain"], res["returned"]) or len(res["chain"]) != len(draws):
+            ctx.mismatch("chain_value/" + sig, c, "the chain is not made of the values returned by the Gamma generator",
                          [float(v) for v in draws], res["chain"])
         # approximation quality: observation only (the docstring promises "approximated by", no bound)
         exact_shape = c["nrows"] + float(_fr(c["alpha"]))
@@ -392,16 +413,13 @@ def replay_lmrf(ctx, c):
 
 
 class _ScriptedSample:
-    """Replacement of target.sample on one instance: returns the scripted vectors, logs every call."""
+    """Replacement of target.sample on one instance: returns the scripted vectors (then fresh distinct ones), logs every call."""
 
-    def __init__(self, values):
-        self.values, self.calls = list(values), []
+    def __init__(self, values, filler):
+        self.values, self.calls, self.filler = list(values), [], filler
 
     def __call__(self, *a, **k):
-        from cuqiverif.core import MachineryError
-        if not self.values:
-            raise MachineryError("scripted target.sample exhausted")
-        v = self.values.pop(0)
+        v = self.values.pop(0) if self.values else self.filler(100 + len(self.calls))
         self.calls.append(v)
         return v.copy()
 
@@ -445,11 +463,12 @@ def replay_direct(ctx, c):
         ctx.mismatch("accepts_unsupported/" + key, c, "Direct does not refuse a target without a sampling method", "exception", "accepted")
         return
     # validation may probe target.sample (those calls return vec(1)); the scripted draws start with sampling
-    scr = _ScriptedSample([vec(1)] * 8)
+    scr = _ScriptedSample([], vec)
+    marks = []
     target.sample = scr
     try:
         try:
-            s = Direct(target)
+            s = Direct(target, callback=lambda sample, idx: marks.append(len(scr.calls)))
         except Exception as e:
             ctx.mismatch("rejects_supported/" + key, c, "Direct refuses a target that has a sampling method: %r" % e)
             return
@@ -460,23 +479,48 @@ def replay_direct(ctx, c):
     finally:
         del target.sample
     exp = np.array([vec(v) for v in ids]).T
-    if chain.shape != exp.shape or not np.array_equal(chain, exp) or len(scr.calls) != len(ids):
-        ctx.mismatch("direct_chain/" + key + "/scripted_sample", c, "the chain of Direct is not the sequence of values returned by target.sample",
-                     expected=exp, observed={"chain": chain, "calls": len(scr.calls)})
+    # element i of the chain is the value returned by target.sample during step i (the callback marks the end of a step)
+    bounds = [0] + marks
+    per_step = [scr.calls[bounds[i]:bounds[i + 1]] for i in range(len(marks))]
+    good = chain.shape == exp.shape and len(marks) == len(ids) and all(
+        len(per_step[i]) >= 1 and np.array_equal(chain[:, i], per_step[i][-1]) for i in range(len(marks)))
+    if not good:
+        ctx.mismatch("direct_chain/" + key + "/scripted_sample", c, "an element of the chain of Direct is not the value returned by "
+                     "target.sample during that step", expected=exp, observed={"chain": chain, "calls_per_step": [len(p) for p in per_step]})
+    elif not np.array_equal(chain, exp):
+        ctx.observe("direct_calls_per_step", [len(p) for p in per_step])
     # (b) the real sampling method with the base generator scripted (Gamma target)
     if c["tgt"] == "gamma":
         ctx.case((key, "scripted_generator", tuple(ids)))
         ctx.traces += 1
         target = _direct_target(c)
-        with script_rng.scripted({}, default={"gamma": lambda shape: np.ones(shape)}) as st:
-            s = Direct(target)                            # probes made by validation draw ones
-            n0 = len(st.log)
-            st.q["gamma"] = [vec(v) for v in ids]
+        ret = []
+
+        def mk(v):
+            def f(shape):
+                a = vec(v).reshape(shape)
+                ret.append(a.ravel().copy())
+                return a
+            return f
+
+        def filler(shape):
+            return mk(100 + len(ret))(shape)
+        with script_rng.scripted({}, default={"gamma": filler}) as st:
+            s = Direct(target)                            # probes made by validation draw filler values
+            n0, r0 = len(st.log), len(ret)
+            st.q["gamma"] = [mk(v) for v in ids]
             s.sample(len(ids))
             chain = np.asarray(s.get_samples().samples, dtype=float).reshape(n, -1)
             log = st.log[n0:]
-        if not np.array_equal(chain, exp):
-            ctx.mismatch("direct_chain/" + key + "/scripted_generator", c, "the chain of Direct is not the sequence of draws of the "
+        # the chain is, in order, made of values the target's generator returned while sampling
+        pos, sub = r0, chain.shape[1] == len(ids)
+        for i in range(chain.shape[1]):
+            while pos < len(ret) and not np.array_equal(ret[pos], chain[:, i]):
+                pos += 1
+            sub = sub and pos < len(ret)
+            pos += 1
+        if not sub:
+            ctx.mismatch("direct_chain/" + key + "/scripted_generator", c, "the chain of Direct is not a sequence of draws of the "
                          "target's sampling method", expected=exp, observed=chain)
         for fn, kind, shape, args in log:
             a, sc = np.asarray(args["shape"], float).ravel(), np.asarray(args["scale"], float).ravel()
